@@ -165,6 +165,17 @@ Theorem C09_parse_raw_correct :
 Proof. exact parse_raw_rrender. Qed.
 Print Assumptions C09_parse_raw_correct.
 
+(* at the RAW level a missing operand can still be fabricated: in `[1: ]` the
+   `:` has no right operand, handleToken inserts the slice default `length`
+   before any `]`, and the expression is accepted (KNOWN_FINDINGS colon-close) *)
+Theorem C09_colon_before_close_refuted :
+  exists raw o t, List.In (ROp o None false) raw /\ o_nargs o = 2 /\
+    List.last raw RTraverseArrayCollect = RClose BCollect false /\
+    List.nth 2 raw RTraverseArrayCollect = ROp o None false /\ List.length raw = 4%nat /\
+    parse_raw raw = Ok (Some t).
+Proof. exact colon_close_refuted. Qed.
+Print Assumptions C09_colon_before_close_refuted.
+
 (* the hypotheses are satisfiable and the two spellings really differ:
    (1 | 2) + select(.a == 1)[length]?  *)
 Example C09_example :
